@@ -3,7 +3,7 @@
 
    The definitions are shared, through a record of operations [Num], by
      - [RNum]  : Coq's real numbers (the subject of the theorems), and
-     - [QNum]  : an executable twin over [Q] (exact + - * /, sqrt/ln/pi to ~2^-120),
+     - [QNum]  : an executable twin over [Q] (exact + - * /, sqrt/ln/pi to ~1e-24),
                  evaluated with vm_compute by the correspondence check.
 
    What is modelled: IEEE-754 special-value rules on the extended real line
@@ -302,8 +302,9 @@ Definition RNum : Num :=
      nsqrt := sqrt; nln := ln; nofnat := INR; nltb := Rltb; neqb := Reqb |}.
 
 (* ------------------------------------------------------------------ executable twin over Q *)
-(* fixed point with 128 fractional bits for the two transcendental functions *)
-Definition fxS : Z := 2 ^ 128.
+(* fixed point with 96 fractional bits (~1e-29) for the two transcendental functions; pi to 24 decimals *)
+Definition fxB : Z := 96.
+Definition fxS : Z := 2 ^ fxB.
 
 Definition q_sqrt (q : Q) : Q :=
   let n := Qnum q in
@@ -315,9 +316,9 @@ Definition q_sqrt (q : Q) : Q :=
 Fixpoint atanh_loop (k : nat) (i pw z2 acc : Z) : Z :=
   match k with
   | O => acc
-  | S k' => atanh_loop k' (i + 2)%Z (pw * z2 / fxS)%Z z2 (acc + pw / i)%Z
+  | S k' => atanh_loop k' (i + 2)%Z (Z.shiftr (pw * z2) fxB) z2 (acc + pw / i)%Z
   end.
-Definition atanh_fx (z : Z) : Z := atanh_loop 48 1%Z z (z * z / fxS)%Z 0%Z.
+Definition atanh_fx (z : Z) : Z := atanh_loop 34 1%Z z (Z.shiftr (z * z) fxB) 0%Z.
 Definition ln2_fx : Z := (2 * atanh_fx (fxS / 3))%Z.
 
 Definition q_ln (q : Q) : Q :=
@@ -331,7 +332,7 @@ Definition q_ln (q : Q) : Q :=
     let z := ((mn - md) * fxS / (mn + md))%Z in
     Qred (Qmake (e * ln2_fx + 2 * atanh_fx z) (Z.to_pos fxS)).
 
-Definition q_pi : Q := 3141592653589793238462643383279502884197 # 1000000000000000000000000000000000000000.
+Definition q_pi : Q := 3141592653589793238462643 # 1000000000000000000000000.
 
 Definition QNum : Num :=
   {| car := Q; nofQ := fun q => q; npi := q_pi;
